@@ -64,7 +64,7 @@ Theorem periodic_raise_disposes s pid st e s' :
 Proof.
   simpl. destruct (nth_error (pers s) pid) as [pi|] eqn:Hn; [|discriminate].
   destruct (p_disposed pi) eqn:Hd; [discriminate|].
-  destruct (plookup (p_fn pi) st) as [ns st'|ns|ns x|ns x v]; simpl; try discriminate.
+  destruct (plookup (p_fn pi) st) as [ns sl st'|ns|ns x|ns x v]; simpl; try discriminate.
   - intro E. inversion E; subst. eapply dispose_per_logs; [|exact Hd]. simpl.
     destruct (add_notes_pers ns (add_log s (ETick pid st (clock s)))) as [-> _]. exact Hn.
   - destruct v; simpl; [discriminate|]. intro E. inversion E; subst.
@@ -75,52 +75,122 @@ Qed.
 (* ================================================================== *)
 (* 3. Closed form of [solo_spec]                                        *)
 
-Lemma pstate_shift f st st' ns : plookup f st = PNext ns st' ->
+Lemma pstate_shift f st st' ns sl : plookup f st = PNext ns sl st' ->
   forall k, pstate f st (S k) = pstate f st' k.
 Proof.
   intro Ef. induction k as [|k IH].
   - simpl. rewrite Ef. reflexivity.
   - change (pstate f st (S (S k))) with
       (match pstate f st (S k) with
-       | Some x => match plookup f x with PNext _ y => Some y | _ => None end
+       | Some x => match plookup f x with PNext _ _ y => Some y | _ => None end
        | None => None end).
     rewrite IH. reflexivity.
 Qed.
 
-Lemma solo_spec_nth f p : forall n due st t k stk,
-  nth_error (solo_spec f p n due st t) k = Some stk ->
-  snd stk = due + Z.of_nat k * p /\ snd stk <= t /\ pstate f st k = Some (fst stk).
+Lemma pstate_stop f st : match plookup f st with PNext _ _ _ => False | _ => True end ->
+  forall k, pstate f st (S k) = None.
 Proof.
-  induction n as [|n IH]; intros due st t k stk; simpl; [destruct k; discriminate|].
-  destruct (t <? due) eqn:Et; [destruct k; discriminate|]. apply Z.ltb_ge in Et.
-  destruct k as [|k]; [simpl | cbn [nth_error]].
-  - intro E. inversion E; subst. simpl. repeat split; lia.
-  - destruct (plookup f st) as [ns st'|ns|ns e|ns e v] eqn:Ef; try (destruct k; discriminate).
-    intro E. destruct (IH _ _ _ _ _ E) as (A & B & C). repeat split; try lia.
-    rewrite (pstate_shift f st st' ns Ef). exact C.
+  intro H. induction k as [|k IH].
+  - simpl. destruct (plookup f st); try reflexivity. destruct H.
+  - change (pstate f st (S (S k))) with
+      (match pstate f st (S k) with
+       | Some x => match plookup f x with PNext _ _ y => Some y | _ => None end
+       | None => None end).
+    rewrite IH. reflexivity.
 Qed.
 
-(* the list stops only because the next call would be after t, or the action did not return a state *)
-Lemma solo_spec_complete f p : 0 < p -> forall n due st t,
-  (Z.to_nat ((t - due) / p + 1) <= n)%nat ->
-  let l := solo_spec f p n due st t in
-  due + Z.of_nat (length l) * p > t \/
-  (exists k x, length l = S k /\ pstate f st k = Some x /\ match plookup f x with PNext _ _ => False | _ => True end).
+(* the k-th call starts at max(clk, due) + tsum ... k, with the state returned by the
+   previous call *)
+Lemma solo_spec_nth f p : forall n clk due st t k stk,
+  nth_error (solo_spec f p n clk due st t) k = Some stk ->
+  snd stk = Z.max clk due + tsum f p st k /\ pstate f st k = Some (fst stk).
 Proof.
-  intro Hp. induction n as [|n IH]; intros due st t Hn; cbn [solo_spec].
-  - left. cbn [length]. destruct (Z.lt_ge_cases t due) as [H|H]; [lia|]. exfalso.
+  induction n as [|n IH]; intros clk due st t k stk; cbn [solo_spec]; [destruct k; discriminate|].
+  destruct (t <? due) eqn:Et; [destruct k; discriminate|].
+  destruct k as [|k]; cbn [nth_error].
+  - intro E. inversion E; subst. cbn [snd fst tsum pstate]. split; [lia | reflexivity].
+  - destruct (plookup f st) as [ns sl st'|ns|ns e|ns e v] eqn:Ef; try (destruct k; discriminate).
+    intro E. destruct (IH _ _ _ _ _ _ E) as (A & C). split.
+    + rewrite A. cbn [tsum]. unfold pelapsed. rewrite Ef. lia.
+    + rewrite (pstate_shift f st st' ns sl Ef). exact C.
+Qed.
+
+Lemma ontime_shift f p st st' ns sl k : plookup f st = PNext ns sl st' ->
+  ontime f p st (S k) -> ontime f p st' k.
+Proof.
+  intros Ef H j x Hj Hx. apply (H (S j) x); [lia|]. rewrite (pstate_shift f st st' ns sl Ef). exact Hx.
+Qed.
+
+(* elapsed-time compensation: as long as no earlier call takes longer than the
+   period, the k-th call (if there is one) starts exactly k periods after the first *)
+Lemma tsum_ontime f p : forall k st x, pstate f st k = Some x -> ontime f p st k ->
+  tsum f p st k = Z.of_nat k * p.
+Proof.
+  induction k as [|k IH]; intros st x Hx H; [reflexivity|].
+  cbn [tsum]. rewrite Nat2Z.inj_succ.
+  assert (E : pelapsed f st <= p) by (apply (H 0%nat st); [lia | reflexivity]).
+  destruct (plookup f st) as [ns sl st'|ns|ns e|ns e v] eqn:Ef;
+    try (rewrite pstate_stop in Hx; [discriminate | rewrite Ef; exact I]).
+  rewrite (pstate_shift f st st' ns sl Ef) in Hx.
+  rewrite (IH st' x Hx (ontime_shift f p st st' ns sl k Ef H)). lia.
+Qed.
+
+(* in general each call pushes the next one by max(period, its own duration) *)
+Lemma tsum_lower f p : 0 <= p -> forall k st x, pstate f st k = Some x -> Z.of_nat k * p <= tsum f p st k.
+Proof.
+  intro Hp. induction k as [|k IH]; intros st x Hx; [simpl; lia|].
+  cbn [tsum]. rewrite Nat2Z.inj_succ.
+  destruct (plookup f st) as [ns sl st'|ns|ns e|ns e v] eqn:Ef;
+    try (rewrite pstate_stop in Hx; [discriminate | rewrite Ef; exact I]).
+  rewrite (pstate_shift f st st' ns sl Ef) in Hx. specialize (IH st' x Hx). lia.
+Qed.
+
+(* due time of the call after m calls were made *)
+Definition pdue (f : ptable) (p clk due st : Z) (m : nat) : Z :=
+  match m with O => due | S j => Z.max clk due + tsum f p st j + p end.
+
+(* the list stops only because the pending call is due after t, or the last call did not return a state *)
+Lemma solo_spec_complete f p : 0 < p -> forall n clk due st t,
+  (Z.to_nat ((t - due) / p + 1) <= n)%nat ->
+  let l := solo_spec f p n clk due st t in
+  pdue f p clk due st (length l) > t \/
+  (exists k x, length l = S k /\ pstate f st k = Some x /\ match plookup f x with PNext _ _ _ => False | _ => True end).
+Proof.
+  intro Hp. induction n as [|n IH]; intros clk due st t Hn; cbn [solo_spec].
+  - left. cbn [length pdue]. destruct (Z.lt_ge_cases t due) as [H|H]; [lia|]. exfalso.
     assert (0 <= (t - due) / p) by (apply Z.div_pos; lia). lia.
-  - destruct (t <? due) eqn:Et; [left; cbn [length]; apply Z.ltb_lt in Et; lia|]. apply Z.ltb_ge in Et.
-    destruct (plookup f st) as [ns st'|ns|ns e|ns e v] eqn:Ef;
+  - destruct (t <? due) eqn:Et; [left; cbn [length pdue]; apply Z.ltb_lt in Et; lia|]. apply Z.ltb_ge in Et.
+    destruct (plookup f st) as [ns sl st'|ns|ns e|ns e v] eqn:Ef;
       try (right; exists 0%nat, st; cbn [length pstate]; rewrite Ef; repeat split; auto; fail).
-    assert (Hn' : (Z.to_nat ((t - (due + p)) / p + 1) <= n)%nat).
+    set (T := Z.max clk due).
+    assert (Hn' : (Z.to_nat ((t - (T + p)) / p + 1) <= n)%nat).
     { assert (E : (t - due) / p = (t - (due + p)) / p + 1).
       { replace (t - due) with ((t - (due + p)) + 1 * p) by lia. rewrite Z.div_add by lia. reflexivity. }
-      rewrite E in Hn. remember ((t - (due + p)) / p) as q. lia. }
-    destruct (IH (due + p) st' t Hn') as [A|(k & x & A & B & C)].
-    + left. cbn [length]. rewrite Nat2Z.inj_succ. nia.
-    + right. exists (S k), x. rewrite (pstate_shift f st st' ns Ef). cbn [length]. repeat split; auto.
+      assert (L : (t - (T + p)) / p <= (t - (due + p)) / p) by (apply Z.div_le_mono; unfold T; lia).
+      rewrite E in Hn. remember ((t - (due + p)) / p) as q. remember ((t - (T + p)) / p) as q'. lia. }
+    destruct (IH (T + Z.of_N sl) (T + p) st' t Hn') as [A|(k & x & A & B & C)].
+    + left. cbn [length]. remember (length (solo_spec f p n (T + Z.of_N sl) (T + p) st' t)) as m.
+      destruct m as [|j]; cbn [pdue tsum] in *.
+      * fold T. lia.
+      * fold T. unfold pelapsed. rewrite Ef. lia.
+    + right. exists (S k), x. rewrite (pstate_shift f st st' ns sl Ef). cbn [length]. repeat split; auto.
 Qed.
+
+Lemma solo_spec_length f p : 0 < p -> forall n clk due st t,
+  (length (solo_spec f p n clk due st t) <= Z.to_nat ((t - due) / p + 1))%nat.
+Proof.
+  intro Hp. induction n as [|n IH]; intros clk due st t; cbn [solo_spec length]; [lia|].
+  destruct (t <? due) eqn:Et; cbn [length]; [lia|]. apply Z.ltb_ge in Et.
+  assert (E : (t - due) / p = (t - (due + p)) / p + 1).
+  { replace (t - due) with ((t - (due + p)) + 1 * p) by lia. rewrite Z.div_add by lia. reflexivity. }
+  assert (0 <= (t - due) / p) by (apply Z.div_pos; lia).
+  destruct (plookup f st) as [ns sl st'|ns|ns e|ns e v]; cbn [length]; try lia.
+  set (T := Z.max clk due).
+  specialize (IH (T + Z.of_N sl) (T + p) st' t).
+  assert (L : (t - (T + p)) / p <= (t - (due + p)) / p) by (apply Z.div_le_mono; unfold T; lia).
+  rewrite E. remember ((t - (due + p)) / p) as q. remember ((t - (T + p)) / p) as q'. lia.
+Qed.
+
 
 (* ================================================================== *)
 (* 4. A periodic subscription alone under advance_to: the calls are exactly
@@ -129,7 +199,7 @@ Qed.
 Definition solo (s : st) (pid : nat) (p : Z) (f : ptable) (st due : Z) : Prop :=
   exists it, queue s = [it] /\ i_pay it = PPer pid st /\ i_due it = due /\
     nth_error (pers s) pid = Some (PInfo p f false (i_id it)) /\
-    enabled s = true /\ clock s <= due /\
+    enabled s = true /\
     Forall (fun r => (r < next_id s)%nat) (cancelled s) /\ ~ In (i_id it) (cancelled s).
 
 Lemma memb_notin n l : ~ In n l -> memb n l = false.
@@ -185,33 +255,35 @@ Qed.
 Lemma solo_advance f p pid t : 0 <= p -> forall fuel s st due,
   solo s pid p f st due ->
   let o := advance_loop fuel s t in
-  ticks_of pid (log (ostate o)) = rev (solo_spec f p fuel due st t) ++ ticks_of pid (log s) /\
-  (forall s', o = OutOfFuel s' -> length (solo_spec f p fuel due st t) = fuel).
+  ticks_of pid (log (ostate o)) = rev (solo_spec f p fuel (clock s) due st t) ++ ticks_of pid (log s) /\
+  (forall s', o = OutOfFuel s' -> length (solo_spec f p fuel (clock s) due st t) = fuel).
 Proof.
-  intro Hp. induction fuel as [|fuel IH]; intros s st due (it & Hq & Hpay & Hdue & Hn & He & Hck & Hcan & Hnot).
+  intro Hp. induction fuel as [|fuel IH]; intros s st due (it & Hq & Hpay & Hdue & Hn & He & Hcan & Hnot).
   - simpl. rewrite He, Hq; simpl. rewrite Hdue. destruct (t <? due).
     + rewrite ticks_finish_adv. split; [reflexivity | intros; discriminate].
     + simpl. split; reflexivity.
   - cbn [advance_loop solo_spec]. rewrite He, Hq. cbn [negb]. rewrite Hdue.
     destruct (t <? due) eqn:Et.
     + rewrite ticks_finish_adv. split; [reflexivity | intros; discriminate].
-    + assert (Enew : (if clock s <? due then due else clock s) = due).
-      { destruct (clock s <? due) eqn:E; [reflexivity|]. apply Z.ltb_ge in E. lia. }
+    + set (T := Z.max (clock s) due).
+      assert (Enew : (if clock s <? due then due else clock s) = T).
+      { unfold T. destruct (clock s <? due) eqn:E; [apply Z.ltb_lt in E | apply Z.ltb_ge in E]; lia. }
       rewrite Enew. unfold run_item. rewrite (memb_notin _ _ Hnot). cbn [negb]. rewrite Hpay.
-      set (s1 := add_log (set_clock (dequeue s []) due) (mkpop s it due false true)).
+      set (s1 := add_log (set_clock (dequeue s []) T) (mkpop s it T false true)).
       assert (Hn1 : nth_error (pers s1) pid = Some (PInfo p f false (i_id it))) by exact Hn.
       cbn [invoke]. rewrite Hn1. cbn [p_disposed p_fn p_period].
-      assert (Hclk : clock s1 = due) by reflexivity.
+      assert (Hclk : clock s1 = T) by reflexivity.
       assert (Htk : forall ns, ticks_of pid (log (add_notes (add_log s1 (ETick pid st (clock s1))) ns))
-                               = (st, due) :: ticks_of pid (log s)).
+                               = (st, T) :: ticks_of pid (log s)).
       { intro ns. rewrite ticks_add_notes. simpl. rewrite Nat.eqb_refl. reflexivity. }
-      destruct (plookup f st) as [ns st'|ns|ns e|ns e v] eqn:Ef.
+      destruct (plookup f st) as [ns sl st'|ns|ns e|ns e v] eqn:Ef.
       * (* PNext: the subscription stays alone in the queue *)
         set (s2 := add_notes (add_log s1 (ETick pid st (clock s1))) ns).
         destruct (add_notes_fields ns (add_log s1 (ETick pid st (clock s1)))) as (F1 & F2 & F3 & F4 & F5).
         destruct (add_notes_pers ns (add_log s1 (ETick pid st (clock s1)))) as (F6 & _).
-        set (s3 := set_pers s2 (set_nth pid (PInfo p f false (next_id s2)) (pers s2))).
-        set (s4 := enqueue s3 (clock s3 + p) (PPer pid st')).
+        set (s2' := set_clock s2 (clock s2 + Z.of_N sl)).
+        set (s3 := set_pers s2' (set_nth pid (PInfo p f false (next_id s2')) (pers s2'))).
+        set (s4 := enqueue s3 (clock s3 + (p - (clock s2' - clock s1))) (PPer pid st')).
         assert (Hnid : next_id s2 = next_id s).
         { unfold s2. clear. assert (G : forall x, next_id (add_notes x ns) = next_id x).
           { induction ns as [|n tl IHn]; intro x; simpl; [|rewrite IHn]; reflexivity. }
@@ -222,17 +294,18 @@ Proof.
           rewrite G. reflexivity. }
         fold s2 in F1, F2, F3, F6.
         assert (Q2 : queue s2 = []) by (rewrite F2; reflexivity).
-        assert (C2 : clock s2 = due) by (rewrite F1; reflexivity).
+        assert (C2 : clock s2 = T) by (rewrite F1; reflexivity).
         assert (E2 : enabled s2 = true) by (rewrite F3; exact He).
         assert (P2 : pers s2 = pers s) by (rewrite F6; reflexivity).
-        assert (Hsolo : solo s4 pid p f st' (due + p)).
-        { exists (Item (clock s3 + p) (count s3) (next_id s3) (npops s3) (clock s3) (PPer pid st')).
-          unfold s4, s3; simpl. rewrite Q2, C2, E2, P2, Hnid, Hcan2. simpl. repeat split; auto; try lia.
+        assert (Hc4 : clock s4 = T + Z.of_N sl) by (unfold s4, s3, s2'; simpl; rewrite C2; reflexivity).
+        assert (Hsolo : solo s4 pid p f st' (T + p)).
+        { exists (Item (clock s3 + (p - (clock s2' - clock s1))) (count s3) (next_id s3) (npops s3) (clock s3) (PPer pid st')).
+          unfold s4, s3, s2'; simpl. rewrite Q2, C2, E2, P2, Hnid, Hcan2. simpl. repeat split; auto; try lia.
           - eapply nth_error_set_nth. exact Hn.
           - eapply Forall_impl; [|exact Hcan]. simpl. intros; lia.
           - intro Hin. rewrite Forall_forall in Hcan. apply Hcan in Hin. lia. }
-        destruct (IH s4 st' (due + p) Hsolo) as [T O]. fold s2 s3 s4. split.
-        -- rewrite T. cbn [rev]. rewrite <- app_assoc. f_equal. unfold s4, s3; simpl. fold s2.
+        destruct (IH s4 st' (T + p) Hsolo) as [T' O]. rewrite Hc4 in T', O. split.
+        -- rewrite T'. cbn [rev]. rewrite <- app_assoc. f_equal. unfold s4, s3, s2'; simpl. fold s2.
            unfold s2. rewrite Htk. reflexivity.
         -- intros s' E. cbn [length]. f_equal. eapply O. exact E.
       * (* PNextDisposed: a cancelled item remains *)
@@ -278,26 +351,14 @@ Proof.
            rewrite ticks_dispose_per. simpl. rewrite Htk. reflexivity.
 Qed.
 
-Lemma solo_spec_length f p : 0 < p -> forall n due st t,
-  (length (solo_spec f p n due st t) <= Z.to_nat ((t - due) / p + 1))%nat.
-Proof.
-  intro Hp. induction n as [|n IH]; intros due st t; cbn [solo_spec length]; [lia|].
-  destruct (t <? due) eqn:Et; cbn [length]; [lia|]. apply Z.ltb_ge in Et.
-  assert (E : (t - due) / p = (t - (due + p)) / p + 1).
-  { replace (t - due) with ((t - (due + p)) + 1 * p) by lia. rewrite Z.div_add by lia. reflexivity. }
-  assert (0 <= (t - due) / p) by (apply Z.div_pos; lia).
-  destruct (plookup f st) as [ns st'|ns|ns e|ns e v]; cbn [length]; try lia.
-  specialize (IH (due + p) st' t). rewrite E. remember ((t - (due + p)) / p) as q. lia.
-Qed.
-
 (* the history: schedule_periodic(p, f, st0) on a fresh scheduler at clock c0, then advance_to(t) *)
 Definition solo_history (p : Z) (f : ptable) (st0 t : Z) : list tcmd :=
   [TDo (SPeriodic p f st0); TAdvTo t].
 
 Theorem periodic_solo c fuel c0 p f st0 t : 0 <= p -> c0 < t ->
   let r := run c fuel (init c0) (solo_history p f st0 t) in
-  rev (ticks_of 0 (log (state_of r))) = solo_spec f p fuel (c0 + p) st0 t /\
-  (match r with ROutOfFuel _ => length (solo_spec f p fuel (c0 + p) st0 t) = fuel | RDeadlock _ => False | RDone _ => True end).
+  rev (ticks_of 0 (log (state_of r))) = solo_spec f p fuel c0 (c0 + p) st0 t /\
+  (match r with ROutOfFuel _ => length (solo_spec f p fuel c0 (c0 + p) st0 t) = fuel | RDeadlock _ => False | RDone _ => True end).
 Proof.
   intros Hp Hlt. unfold solo_history. cbn [run step_t exec_cmd of_bres].
   set (s1 := add_log _ _).
@@ -330,7 +391,7 @@ Theorem periodic_solo_terminates c fuel c0 p f st0 t : 0 < p -> c0 < t ->
 Proof.
   intros Hp Hlt Hf. destruct (periodic_solo c fuel c0 p f st0 t) as [_ H]; [lia | assumption |].
   destruct (run c fuel (init c0) (solo_history p f st0 t)) as [s'|s'|s']; [eexists; reflexivity | destruct H|].
-  exfalso. pose proof (solo_spec_length f p Hp fuel (c0 + p) st0 t) as L. rewrite H in L.
+  exfalso. pose proof (solo_spec_length f p Hp fuel c0 (c0 + p) st0 t) as L. rewrite H in L.
   assert (E : (t - c0) / p = (t - (c0 + p)) / p + 1).
   { replace (t - c0) with ((t - (c0 + p)) + 1 * p) by lia. rewrite Z.div_add by lia. reflexivity. }
   rewrite E in Hf. lia.
@@ -342,7 +403,7 @@ Qed.
    never called again *)
 Theorem periodic_stop_disposes s pid st pi :
   nth_error (pers s) pid = Some pi -> p_disposed pi = false ->
-  match plookup (p_fn pi) st with PNext _ _ => False | _ => True end ->
+  match plookup (p_fn pi) st with PNext _ _ _ => False | _ => True end ->
   In (EPDispose pid) (log (bstate (invoke s (PPer pid st)))).
 Proof.
   intros Hn Hd Hr. simpl. rewrite Hn, Hd.
@@ -350,10 +411,31 @@ Proof.
   { intro ns. destruct (add_notes_pers ns (add_log s (ETick pid st (clock s)))) as [-> _]. exact Hn. }
   assert (HC : forall x r, In (EPDispose pid) (log x) -> In (EPDispose pid) (log (cancel_id x r))).
   { intros x r H. unfold cancel_id. destruct (r <? next_id x)%nat; simpl; auto. }
-  destruct (plookup (p_fn pi) st) as [ns st'|ns|ns e|ns e v]; simpl; [destruct Hr| | |].
+  destruct (plookup (p_fn pi) st) as [ns sl st'|ns|ns e|ns e v]; simpl; [destruct Hr| | |].
   - apply HC. simpl. eapply dispose_per_logs; [apply Hn' | exact Hd].
   - eapply dispose_per_logs; [|exact Hd]. simpl. apply Hn'.
   - destruct v; simpl.
     + apply HC. simpl. eapply dispose_per_logs; [|exact Hd]. simpl. apply Hn'.
     + eapply dispose_per_logs; [|exact Hd]. simpl. apply Hn'.
+Qed.
+
+(* elapsed-time compensation, for ALL action tables (hence all sequences of call
+   durations): if no earlier call took longer than the period, the k-th call of a
+   subscription made at clock c0 starts exactly at c0 + (k+1)*p; in general it starts
+   at c0 + p + sum over the earlier calls of max(p, duration), never earlier *)
+Theorem solo_kth_general f p n c0 st0 t k stk : 0 <= p ->
+  nth_error (solo_spec f p n c0 (c0 + p) st0 t) k = Some stk ->
+  snd stk = c0 + p + tsum f p st0 k /\ c0 + (Z.of_nat k + 1) * p <= snd stk /\
+  pstate f st0 k = Some (fst stk).
+Proof.
+  intros Hp H. destruct (solo_spec_nth f p n c0 (c0 + p) st0 t k stk H) as [A B].
+  pose proof (tsum_lower f p Hp k st0 (fst stk) B). repeat split; auto; lia.
+Qed.
+
+Theorem solo_kth_ontime f p n c0 st0 t k stk : 0 <= p ->
+  nth_error (solo_spec f p n c0 (c0 + p) st0 t) k = Some stk -> ontime f p st0 k ->
+  snd stk = c0 + (Z.of_nat k + 1) * p.
+Proof.
+  intros Hp H Ho. destruct (solo_spec_nth f p n c0 (c0 + p) st0 t k stk H) as [A B].
+  rewrite A, (tsum_ontime f p k st0 (fst stk) B Ho). lia.
 Qed.
